@@ -14,14 +14,18 @@ from vlib import ToolError, log
 CLI_TARGET = os.path.join(vlib.HARNESS, "target-cli")
 CLI_BIN = os.path.join(CLI_TARGET, "release", "cedar")
 WORLD_FILE = os.path.join(vlib.WORK, "C19", "front_world.json")
-CLI_KINDS = {"cliAuthorize": 260, "cliValidate": 60, "cliCheckParse": 120, "cliFormat": 40, "cliTranslatePolicy": 26,
-             "cliTranslateSchema": 16, "cliLink": 80}            # quick-tier quota per CLI operation kind
-FFI_QUOTA = {"authorize": 400}                                    # quick-tier quota for the FFI kinds that are large
+CLI_KINDS = {"cliAuthorize": 150, "cliValidate": 40, "cliCheckParse": 60, "cliFormat": 24, "cliTranslatePolicy": 26,
+             "cliTranslateSchema": 16, "cliLink": 40}            # quick-tier quota per CLI operation kind (about 350 runs)
+FFI_QUOTA = {"authorize": 300}                                    # quick-tier quota for the FFI kinds that are large
 
 
 def build_cli():
     """build the `cedar` binary from /repo's current working tree (own target dir; incremental after the first time)"""
     t0 = time.time()
+    primary = os.path.join(vlib.VERIF, "harness", "target-cli")
+    if CLI_TARGET != primary and not os.path.exists(CLI_TARGET) and os.path.exists(primary):
+        # a scratch checkout (VERIF_ALT_REPO): start from the dependency artefacts already built for /repo
+        subprocess.run(["cp", "-a", primary, CLI_TARGET], check=False)
     env = dict(os.environ, CARGO_TARGET_DIR=CLI_TARGET, CARGO_NET_OFFLINE="true")
     r = subprocess.run(["cargo", "build", "--release", "--offline", "-p", "cedar-policy-cli", "--manifest-path", os.path.join(vlib.REPO, "Cargo.toml")],
                        env=env, stdout=subprocess.PIPE, stderr=subprocess.STDOUT, text=True)
@@ -30,6 +34,7 @@ def build_cli():
         sys.stderr.write(r.stdout[-6000:])
         raise ToolError("building the cedar CLI failed (does /repo still compile?)")
     os.environ["CEDAR_CLI"] = CLI_BIN          # inherited by the harness process
+    os.environ["CEDAR_FRONT_WORK"] = os.path.join(vlib.WORK, "C19")
     os.makedirs(os.path.join(vlib.WORK, "C19", "cli"), exist_ok=True)
     log("cedar CLI built in %.1fs" % (time.time() - t0))
 
@@ -85,12 +90,13 @@ def _keep(op, quota, total):
 
 
 _TOTALS = {}
+_CLI_CASES = []          # CLI cases are set aside by the case hook and run by extra_traces in parallel harness processes
 
 
 def _case(world, c, i):
     op = c["op"]
+    kind = op[0]
     if vlib.TRACE_ENV.get("TIER") == "quick":
-        kind = op[0]
         quota = CLI_KINDS.get(kind, FFI_QUOTA.get(kind))
         if quota is not None:
             total = _TOTALS.get(kind)
@@ -98,7 +104,11 @@ def _case(world, c, i):
                 total = _TOTALS[kind] = _kind_total(world, kind)
             if not _keep(op, quota, total):
                 return None
-    return dict(id=i, op=op)
+    case = dict(id=i, op=op)
+    if kind.startswith("cli"):
+        _CLI_CASES.append(case)
+        return None
+    return case
 
 
 def _kind_total(world, kind):
@@ -108,5 +118,152 @@ def _kind_total(world, kind):
             "authorize": nP * (nS + 1) * 2 * nR}.get(kind, 1)
 
 
+def _run_cli_cases(cases, wd, nproc=4):
+    """replay the CLI cases in `nproc` concurrent harness processes (each loads the world from WORLD_FILE)"""
+    tpath = os.path.join(wd, "mc_front_cli.trace.ndjson")
+    parts = []
+    for k in range(nproc):
+        part = cases[k::nproc]
+        if not part:
+            continue
+        cp = os.path.join(wd, "mc_front_cli.%d.cases.ndjson" % k)
+        tp = os.path.join(wd, "mc_front_cli.%d.trace.ndjson" % k)
+        vlib.write_ndjson(cp, part)
+        parts.append((cp, tp, subprocess.Popen([vlib.CONFORM, "replay", "front", cp, tp], stdout=subprocess.DEVNULL, stderr=subprocess.PIPE, text=True)))
+    with open(tpath, "w") as out:
+        for cp, tp, proc in parts:
+            _, err = proc.communicate(timeout=7200)
+            if proc.returncode != 0:
+                raise ToolError("harness failed on %s:\n%s" % (cp, err[-3000:]))
+            with open(tp) as f:
+                out.write(f.read())
+            os.remove(cp)
+            os.remove(tp)
+    return tpath
+
+
+# ----------------------------------------------------------------- canary for this family (run on every check)
+def _corrupt(ev):
+    """one recorded field of a Front event changed; None if this event offers nothing to corrupt"""
+    ev = json.loads(json.dumps(ev))
+    kind = ev.get("op", [""])[0]
+    if kind == "cliAuthorize":
+        c = ev["cli"]
+        if c["reasons"]:
+            c["reasons"] = c["reasons"][1:]                     # a determining policy is not printed
+        elif c["exit"] in (0, 2):
+            c["exit"] = 2 - c["exit"]                           # Allow <-> Deny exit status
+        else:
+            c["exit"] = 0
+        return ev
+    if kind == "validate" and ev["ffi"][0] == "ok":
+        ev["ffi"][1] = ev["ffi"][1][1:] if ev["ffi"][1] else ["policy0"]      # a validation error id dropped / invented
+        return ev
+    if kind == "cliValidate":
+        ev["cli"]["exit"] = {0: 3, 3: 0, 1: 0}.get(ev["cli"]["exit"], 1)
+        return ev
+    if kind == "checkParse":
+        ev["ffi"] = "fail" if ev["ffi"] == "ok" else "ok"
+        return ev
+    if kind == "convPolicy" and ev["op"][2] == "toJson" and ev["ffi"][0] == "ok":
+        ev["doc"]["effect"] = "forbid" if ev["doc"]["effect"] == "permit" else "permit"      # the converted document altered
+        return ev
+    if kind == "convSchema" and ev["ffi"][0] == "ok":
+        ev["ffi"][1] = ev["ffi"][1] + " "
+        return ev
+    if kind == "format" and ev["ffi"][0] == "ok":
+        ev["ffi"][1] = ev["ffi"][1] + "\n"
+        return ev
+    if kind == "cliCheckParse":
+        ev["cli"]["exit"] = 1 - ev["cli"]["exit"] if ev["cli"]["exit"] in (0, 1) else 0
+        return ev
+    if kind == "authorize" and ev["ffi"][0] == "ok":
+        ev["ffi"][1]["decision"] = "Deny" if ev["ffi"][1]["decision"] == "Allow" else "Allow"
+        return ev
+    return None
+
+
+def _front_canary(traces, wd):
+    """corrupt one event of (up to) ten kinds and require Trace_Front to reject exactly those lines"""
+    lines = []
+    for t in traces:
+        with open(t) as f:
+            lines += [l for l in f if l.strip()]
+    picked, seen = [], set()
+    for l in lines:
+        ev = json.loads(l)
+        kind = ev.get("op", [""])[0]
+        if ev.get("ev") != "Front" or kind in seen:
+            continue
+        m = _corrupt(ev)
+        if m is not None:
+            seen.add(kind)
+            picked.append((l, json.dumps(m) + "\n"))
+    if len(picked) < 5:
+        raise ToolError("front canary: only %d event kinds could be corrupted" % len(picked))
+    p = os.path.join(wd, "front.canary.ndjson")
+    planted = []
+    with open(p, "w") as f:
+        n = 0
+        for good, corrupted in picked:            # the untouched event, then its corrupted copy
+            f.write(good)
+            f.write(corrupted)
+            n += 2
+            planted.append(n)
+    n, bad, _ = vlib.validate_trace("Trace_Front.tla", p, wd, chunk=4000, parallel=1)
+    os.remove(p)
+    got = sorted(b[0] for b in bad)
+    if got != planted:
+        raise ToolError("front canary not rejected as expected: planted %s, rejected %s" % (planted, got))
+    log("front canary: %d corrupted events (%s) rejected, their originals accepted" % (len(planted), ", ".join(sorted(seen))))
+    return len(planted)
+
+
+_OTHER_WORLD = [None]
+
+
+def remember_world(setup):
+    """wrap the setup hook of the ffi model: the runner keeps only the last model's world in fam["_world"]"""
+    def g(world):
+        _OTHER_WORLD[0] = world
+        return setup(world)
+    return g
+
+
+def extra_traces(prev):
+    def f(fam, tier, wd, seed):
+        front_world = fam.get("_world")
+        if _OTHER_WORLD[0] is not None:
+            fam["_world"] = _OTHER_WORLD[0]          # the history driver of the ffi family draws from its own world
+        out = prev(fam, tier, wd, seed) if prev else []
+        fam["_world"] = front_world
+        cases = list(_CLI_CASES)
+        del _CLI_CASES[:]
+        front = [os.path.join(wd, "mc_front.trace.ndjson")]
+        if cases:
+            t0 = time.time()
+            tpath = _run_cli_cases(cases, wd)
+            log("cedar CLI: %d runs in %.1fs" % (len(cases), time.time() - t0))
+            out.append((tpath, "G:mc_front_cli", "Trace_Front.tla"))
+            front.append(tpath)
+        if os.path.exists(front[0]):
+            fam.setdefault("extra_coverage", {})["front_canaries_rejected"] = _front_canary(front, wd)
+        return out
+    return f
+
+
 MODELS = [dict(name="mc_front", module="MC_Front.tla", cfg=dict(quick="MC_Front.cfg", thorough="MC_Front.cfg"),
                cases=_case, setup=_setup, family="front", trace_module="Trace_Front.tla", workers=4)]
+
+RULE = (" Front family (Front.tla): G: the product operation x policy source (13: text, id->text, id->JSON, templates+links, @id annotations, a duplicated "
+        "@id, a template inside a text, validation faults of five kinds, three unparsable) x schema source (8: both syntaxes of Sc2 / Sc3 / a fragment with an "
+        "undeclared type, two unparsable) x request (5) x flags: FFI is_authorized_json, validate_json (strict, permissive), check_parse_{policy_set,schema,entities,"
+        "context} (typed and _json), policy/template_to_json and _to_text over 83 policies (the returned JSON must be Est!EstOf of the policy), schema_to_json/_to_text, "
+        "format_json (4 widths x 3 indents), policy_set_text_to_parts; and the built `cedar` binary: authorize (exit status, ALLOW/DENY, determining policies with "
+        "--verbose, erroring policies; ids after @id renaming; both request forms), validate, check-parse, format (--check), translate-policy, translate-schema, link. "
+        "Every answer is compared with Front.tla's function and with the plain Rust API's recorded answer.")
+ASSUMPTIONS = ["front family: validation ground truth is by construction (each world policy carries the fault kinds it was written to contain); error messages are "
+               "not compared, only success/failure, ids, exit status, printed decision and documents",
+               "front family: schema conversions are judged by reloading (projection of the reloaded schema = projection of the source) and by equality with the API's "
+               "conversion, not against an independent rendering of the abstract schema (that is C09's subject)",
+               "front family: `cedar validate` is driven in strict mode only (the binary is built without experimental features); partial-evaluation entry points are not driven"]
